@@ -12,11 +12,11 @@ cd $wt || exit 2
 git diff -- . ':!seed' ':!BRIEF.md' > $work/actual.diff
 if diff -q <(grep -v '^index ' $work/actual.diff) <(grep -v '^index ' seed/patch.diff) > /dev/null; then echo "[confirm $id] patch.diff == worktree change ($(grep -c '^[+-][^+-]' seed/patch.diff) changed lines; files: $(git diff --stat -- . ':!seed' ':!BRIEF.md' | head -n -1 | awk '{print $1}' | tr '\n' ' '))"; else echo "[confirm $id] WARNING patch.diff differs from the worktree change"; fi
 crates=$(git diff --name-only -- . ':!seed' ':!BRIEF.md' | cut -d/ -f1 | sort -u)
-suite() { for c in $crates; do p=$(grep -m1 '^name' $c/Cargo.toml | sed 's/.*"\(.*\)"/\1/'); cargo test --offline -j $J -p $p --no-fail-fast --target-dir $work/target 2>&1 | grep -E '^test result|^test .* FAILED|could not compile' | sort | tr '\n' ';'; done; }
+suite() { for c in $crates; do p=$(grep -m1 '^name' $c/Cargo.toml | sed 's/.*"\(.*\)"/\1/'); cargo test --offline -j $J -p $p --no-fail-fast --target-dir $work/target 2>&1 | grep -E '^test result|^test .* FAILED|could not compile' | sed 's/; finished in.*//' | sort | tr '\n' ';'; done; }
 demo() {
   if [ -f seed/demo/main.rs ]; then
     cp seed/demo/*.rs $work/demo_crate/src/ 2>/dev/null
-    (cd $work/demo_crate && timeout 900 cargo run --offline -j $J --target-dir $work/target > $work/demo.out 2>&1; echo "rc=$?")
+    (cd $work/demo_crate && timeout 900 cargo run --offline -j $J --bin seed-demo --target-dir $work/target > $work/demo.out 2>&1; echo "rc=$?")
   else
     t=$(ls seed/demo/*.rs | head -1); n=$(basename $t .rs)
     p=$(grep -ohE -- '-p +dmntk[-a-z]*' seed/demo/RUN.md | head -1 | awk '{print $2}')
